@@ -131,7 +131,7 @@ func TestPropFreq(t *testing.T) {
 
 // ---------------------------------------------------------------- drift
 
-var recDrift = ev.New("c18/drift", "rapid: configured drift (1 ns .. 1 s per second, and unknown), interval d in [0, 40 days]: Drift(d) = d*rate within 1 ns + 1e-12 relative, monotone in d, additive within 2 ns, unknown drift -> MaxInt64. Non-trivial: d >= 1 s and drift known; distinct by (drift, d)")
+var recDrift = ev.New("c18/drift", "rapid: configured drift (1 ns .. 1 s per second, and unknown), interval d in [0, 40 days] and, for a third of the draws, anywhere up to the largest duration (the allowance of a 1 s/s drift over it is the largest duration itself): Drift(d) = d*rate within 1 ns + 1e-12 relative, monotone in d, additive within 2 ns, unknown drift -> MaxInt64. Non-trivial: d >= 1 s and drift known; distinct by (drift, d)")
 
 func TestPropDrift(t *testing.T) {
 	log := slog.New(slog.NewTextHandler(io.Discard, nil))
@@ -139,7 +139,8 @@ func TestPropDrift(t *testing.T) {
 		drift := rapid.OneOf(rapid.Int64Range(1, int64(time.Second)), rapid.Int64Range(1, 1000000),
 			rapid.SampledFrom([]int64{0, 1, 1000, 250000, 1000000, int64(time.Second)})).Draw(t, "drift")
 		dg := rapid.OneOf(rapid.Int64Range(0, int64(40*24*time.Hour)), rapid.Int64Range(0, int64(100*time.Second)),
-			rapid.SampledFrom([]int64{0, 1, int64(time.Second), int64(time.Second) - 1, int64(time.Second) + 1, int64(time.Hour)}))
+			rapid.SampledFrom([]int64{0, 1, int64(time.Second), int64(time.Second) - 1, int64(time.Second) + 1, int64(time.Hour)}),
+			rapid.Int64Range(0, math.MaxInt64), rapid.SampledFrom([]int64{math.MaxInt64, math.MaxInt64 - 1, math.MaxInt64 - 512, 1 << 62}))
 		d1, d2 := dg.Draw(t, "d1"), dg.Draw(t, "d2")
 		c := clocks.NewSystemClock(log, time.Duration(drift))
 		r1, r2 := int64(c.Drift(time.Duration(d1))), int64(c.Drift(time.Duration(d2)))
@@ -161,7 +162,7 @@ func TestPropDrift(t *testing.T) {
 		if d1 <= d2 && r1 > r2 {
 			t.Fatalf("Drift not monotone: drift %d: Drift(%d)=%d > Drift(%d)=%d", drift, d1, r1, d2, r2)
 		}
-		if d1+d2 <= int64(40*24*time.Hour) {
+		if d1 <= int64(40*24*time.Hour) && d2 <= int64(40*24*time.Hour) && d1+d2 <= int64(40*24*time.Hour) {
 			r12 := int64(c.Drift(time.Duration(d1 + d2)))
 			if x := r12 - r1 - r2; x > 2 || x < -2 {
 				t.Fatalf("Drift not additive: drift %d: Drift(%d)=%d, Drift(%d)=%d, Drift(sum)=%d", drift, d1, r1, d2, r2, r12)
